@@ -9,7 +9,7 @@ RULE = ("pools of packets / HTTP payloads / database files replayed as histories
         "fingerprint result is compared with the history-free value the model machine computes; sibling packets differing only "
         "in syn_mss / timestamp / header length follow each other; SYN+ACKs come with the mirrored SYN of their flow announcing the peer MSS; the label (text and sys list) reported with each match is checked against the file loaded at that moment (same application label, other sys list in the other file); non-trivial = history with >= 5 matching results")
 ASSUMPTIONS = ["uptime results are excluded (clock-dependent by the property's own exception)"]
-GEN_TIE = ['api']     # end to end: dissected fields -> translated extraction -> translated fingerprint_tcp / mtu / http wrappers, composed and proved equal to the API model (Gen/GenApiC.v); builds on groups layers, options, uptime, match, select, mtu, http
+GEN_TIE = ['api', 'eff']     # ('eff': translate/eff2coq.py - no public call writes any module-level object but the random generator, the fingerprint calls write nothing at all: Gen/GenEffP.v gen_no_global_object_written, gen_fingerprint_calls_write_nothing) end to end: dissected fields -> translated extraction -> translated fingerprint_tcp / mtu / http wrappers, composed and proved equal to the API model (Gen/GenApiC.v); builds on groups layers, options, uptime, match, select, mtu, http
 EXHAUSTIVE = {}
 
 
